@@ -89,3 +89,34 @@ def _op(node, table):
     if n not in table:
         raise DecodeError("unexpected operator node %s" % n)
     return table[n]
+
+
+def ast_digest(node):
+    """Iterative structural hash of an arbitrarily deep library AST (repr/== of a
+    10 000-deep dataclass tree would overflow the *harness's* stack).
+    Returns (hexdigest, node_count, ok) where ok is False if something that is
+    neither a node, a str, a tuple of str, None nor a list of nodes was found."""
+    import hashlib
+    h = hashlib.blake2b(digest_size=12)
+    stack = [node]
+    count = 0
+    ok = True
+    while stack:
+        x = stack.pop()
+        if dataclasses.is_dataclass(x) and not isinstance(x, type):
+            count += 1
+            h.update(b"N" + type(x).__name__.encode())
+            vals = [getattr(x, f.name) for f in dataclasses.fields(x)]
+            h.update(b"%d" % len(vals))
+            stack.extend(reversed(vals))
+        elif isinstance(x, str):
+            h.update(b"S" + x.encode("utf-8", "surrogatepass") + b"\0")
+        elif x is None:
+            h.update(b"0")
+        elif isinstance(x, (list, tuple)):
+            h.update(b"L%d" % len(x))
+            stack.extend(reversed(list(x)))
+        else:
+            ok = False
+            h.update(b"?" + repr(type(x)).encode())
+    return h.hexdigest(), count, ok
